@@ -32,6 +32,11 @@ transformations:
         rule_conditions:
           - type: logsource
             category: nestcat
+  - id: dropper
+    type: drop_detection_item
+    field_name_conditions:
+      - type: include_fields
+        fields: [fieldDrop]
   - id: map
     type: field_name_mapping
     mapping:
@@ -40,6 +45,10 @@ transformations:
     type: add_condition
     conditions:
       idx: main
+    rule_conditions:
+      - type: logsource
+        category: dropcat
+    rule_cond_not: true
   - id: pre
     type: field_name_prefix
     prefix: "p_"
@@ -56,6 +65,9 @@ postprocessing:
   - id: showfields
     type: simple_template
     template: "{query} | fields={rule.fields}"
+  - id: asjson
+    type: json
+    json_template: '{"lang": "test", "searches": ["%QUERY%", {"again": "%QUERY%"}], "enabled": true}'
 """
 
 
@@ -85,6 +97,9 @@ def rule_doc(kind: str, pos: int) -> dict:
     elif kind == "failNPH":  # fails while a value BELOW A NOT is converted
         d["detection"]["flt"] = {"fieldB|expand": "%undefined%"}
         d["detection"]["condition"] = "sel and not flt"
+    elif kind == "okdrop":  # the pipeline drops every detection item the rule has
+        d["detection"]["sel"] = {"fieldDrop": f"v{pos}"}
+        d["logsource"]["category"] = "dropcat"  # (the one category no condition is added for: nothing is left)
     elif kind == "okneg":
         d["detection"]["flt"] = {"fieldB|startswith": "x"}
         d["detection"]["condition"] = "sel and not flt"
